@@ -229,15 +229,11 @@ def pred_row(node, pr, row):
 # aggregates over a collection: entity -> (collection attribute, numeric attribute of its items, count bound, sum bound)
 AGG = {'Person': ('tags', 'w', 2, 1), 'Dept': ('persons', 'n', 2, 1), 'Tag': ('persons', 'n', 2, 1)}
 def agg_target(node):
-    """(result name | None, original name, entity) of the variable whose collection the aggregate forms use: the first
-    result column that is an entity, else (base queries and their filtered / ordered successors only) the first
-    iterated variable, which is then not part of the result row"""
+    """(result name, original name, entity) of the variable whose collection the aggregate forms use: the first result
+    column that is an entity (None: no such column, or an aggregated query - no aggregate forms there)"""
     if node.aggregated: return None
     for i, (nm, t) in enumerate(node.rn):
         if qx.is_ent(t) and t in AGG and node.orig[i].isidentifier(): return nm, node.orig[i], t
-    if node.src == 'qx':
-        v0, s0 = node.base.q.fors[0]
-        if isinstance(s0, X) and s0.op == 'ent' and s0.v in AGG: return None, v0, s0.v
     return None
 def agg_trees(node, res=False):
     """(count(v.coll) < c, sum(v.coll.a) >= s, count(v.coll), sum(v.coll.a)) as QX trees over the original name
